@@ -228,7 +228,7 @@ fn from_explored(ctx: &Ctx, ty: usize, auto: bool, rep: &mut Report) {
             msgs.push(RefMsg::Data { offset: off, data: c });
         }
     }
-    let cfg = Cfg { name: "c08", addr, foreign: addr ^ 1, auto, msgs, max_pending: if ctx.quick() { 48 } else { 64 }, max_chunks: if ctx.quick() { 3 } else { 5 }, max_pages: if ctx.quick() { 1 } else { 2 }, max_states: if ctx.quick() { 60_000 } else { 2_000_000 }, lockstep: true };
+    let cfg = Cfg { name: "c08", addr, foreign: addr ^ 1, auto, msgs, max_pending: if ctx.quick() { 48 } else { 96 }, max_chunks: if ctx.quick() { 3 } else { 7 }, max_pages: if ctx.quick() { 1 } else { 3 }, max_states: if ctx.quick() { 60_000 } else { 3_000_000 }, lockstep: true };
     let mut scratch = Report::new();
     let ex = vsx::explore(&cfg, &mut scratch, &mut |_, _, _, _, _| {});
     rep.add("explored_prior_states", ex.nodes.len() as u64);
